@@ -205,6 +205,36 @@ def antisense_dataset(seed, n_chroms=2, loci_per_chrom=4, reads_per_tx=5, lower_
                     pa = 25 if (tail and s == "+") else 0
                     pt = 25 if (tail and s == "-") else 0
                     ds.read_from_exons("r_%s_%d_%s%d" % (chrom, li, "p" if s == "+" else "m", k), chrom, e, polya=pa, polyt=pt)
+            # reads that reach BEYOND the annotated gene span: a novel exon ~600 bp upstream of the first / downstream of
+            # the last annotated exon (the gene info saved for the second pass carries the gene span only, so the splice
+            # sites of the linking intron lie outside the window it loads first)
+            if kind != "novel" and rng.random() < 0.5:
+                first, last = exons[0], exons[-1]
+                can_up = first[0] > 900 and not (li == 0 and edge_start)
+                can_dn = last[1] + 760 < length and not (li == len(loci) - 1)
+                for side in ("up", "dn"):
+                    if (side == "up" and not can_up) or (side == "dn" and not can_dn) or rng.random() < 0.3:
+                        continue
+                    s0 = rng.choice(strands)
+                    tbl = FWD_PAIRS if s0 == "+" else REV_PAIRS
+                    pair = tbl[0] if rng.random() < 0.7 else rng.choice(NEAR_MISS + FWD_PAIRS + REV_PAIRS)
+                    base = list(locus_exons[s0]) if kind == "antisense" else list(exons)
+                    if side == "up":
+                        extra = (first[0] - 700, first[0] - 520)
+                        link = (extra[1] + 1, base[0][0] - 1)
+                    else:
+                        extra = (last[1] + 520, last[1] + 700)
+                        link = (base[-1][1] + 1, extra[0] - 1)
+                    # only bases outside every exon of the locus are touched (the link intron's own two ends)
+                    if any(a <= p <= b for a, b in exons for p in (link[0], link[0] + 1, link[1] - 1, link[1])):
+                        continue
+                    seq = plant(ds.chroms[chrom], link, pair)
+                    ds.chroms[chrom] = seq
+                    e = ([extra] + base) if side == "up" else (base + [extra])
+                    truth.setdefault("beyond_gene_span", 0)
+                    for k in range(3):
+                        truth["beyond_gene_span"] += 1
+                        ds.read_from_exons("r_%s_%d_%s%s%d" % (chrom, li, side, "p" if s0 == "+" else "m", k), chrom, e)
             # a mono-exonic read per locus (Unspliced)
             e0 = exons[0]
             ds.read_from_exons("r_%s_%d_mono" % (chrom, li), chrom, [(e0[0] + 5, e0[1] - 5)])
